@@ -1,5 +1,86 @@
 import WuffsVerif.Common.Line
-/-! Line driver for C14 — stub, not built yet. -/
-open WuffsVerif.Line
+import WuffsVerif.Model.Rac.Reader
+/-! Line driver for C14 (lib/rac Reader).  Stateful.  Ops:
+  case <id> size=<n> <chunk>*                 -> ok chunks=<k> size=<n> valid=<true|false>   (defines the file)
+  open c=<concurrency>                        -> ok      (a fresh Reader on the current file)
+      chunk    = lo:hi:<e|u>:<dataspec>          (e: stream ends with EOF, u: truncated stream)
+      dataspec = item(.item)*   item = <hex> | z<count> (NUL bytes) | -  (nothing)
+  read <n>                 -> n=<k> bytes=<hex | #fnv1a64 when k > 48> err=<word>   ((k>0, eof) is printed as nil)
+  seek <off> <whence>      -> pos=<p> err=<word>
+  seekrange <lo> <hi>      -> err=<word>
+  close                    -> err=<word>
+  trace n=<N> <event>*     -> accepted | rejected at <k> <event>      (Model/Rac/Conc.lean, protocol events)
+-/
+open WuffsVerif WuffsVerif.Line WuffsVerif.Rac
 
-def main : IO Unit := runPure (fun _ => "bad-op")
+def fnv1a64 (bs : List UInt8) : UInt64 :=
+  bs.foldl (fun h b => (h ^^^ b.toUInt64) * 1099511628211) 14695981039346656037
+
+def hex64 (x : UInt64) : String :=
+  String.ofList ((List.range 16).map (fun i => hexDigit ((x >>> (UInt64.ofNat (60 - 4 * i))).toNat % 16)))
+
+def showBytes (bs : List UInt8) : String :=
+  if bs.length ≤ 48 then toHex bs else "#" ++ hex64 (fnv1a64 bs)
+
+def errWord : Option Err → String
+  | none => "nil"
+  | some e => e.word
+
+def parseItem (s : String) : Option (List UInt8) :=
+  if s == "-" then some []
+  else if s.front == 'z' then (s.drop 1).toString.toNat?.map zeros
+  else fromHex s
+
+def parseData (s : String) : Option (List UInt8) :=
+  (s.splitOn ".").foldlM (fun acc it => (parseItem it).map (acc ++ ·)) []
+
+def parseChunk (s : String) : Option Chunk :=
+  match s.splitOn ":" with
+  | [lo, hi, t, d] => do
+    let lo ← lo.toNat?
+    let hi ← hi.toNat?
+    let d ← parseData d
+    if t == "e" then pure { lo := lo, hi := hi, data := d, trunc := false }
+    else if t == "u" then pure { lo := lo, hi := hi, data := d, trunc := true }
+    else none
+  | _ => none
+
+def kv (key : String) (s : String) : Option String :=
+  if s.startsWith (key ++ "=") then some (s.drop (key.length + 1)).toString else none
+
+structure DState where
+  file : File := { chunks := [], size := 0 }
+  r : R := {}
+
+def showRes : Res → String
+  | .read bs e => s!"n={bs.length} bytes={showBytes bs} err={errWord e}"
+  | .seek p e => s!"pos={p} err={errWord e}"
+  | .err e => s!"err={errWord e}"
+
+def parseOp : List String → Option Op
+  | ["read", n] => n.toNat?.map Op.read
+  | ["seek", off, wh] => do pure (Op.seek (← off.toInt?) (← wh.toInt?))
+  | ["seekrange", lo, hi] => do pure (Op.seekRange (← lo.toInt?) (← hi.toInt?))
+  | ["close"] => some Op.close
+  | _ => none
+
+def c14Step (st : DState) (l : List String) : DState × String :=
+  match l with
+  | "case" :: _id :: sz :: chunks =>
+    match (kv "size" sz).bind String.toNat?, chunks.mapM parseChunk with
+    | some size, some cs =>
+      let F : File := { chunks := cs, size := size }
+      ({ file := F, r := R.init F false }, s!"ok chunks={cs.length} size={size} valid={F.valid}")
+    | _, _ => (st, "bad-op")
+  | ["open", c] =>
+    match (kv "c" c).bind String.toNat? with
+    | some conc => ({ st with r := R.init st.file (decide (conc > 1)) }, "ok")
+    | none => (st, "bad-op")
+  | _ =>
+    match parseOp l with
+    | none => (st, "bad-op")
+    | some op =>
+      let (r', res) := st.r.step st.file op
+      ({ st with r := r' }, showRes res.canon)
+
+def main : IO Unit := run ({} : DState) c14Step
